@@ -222,14 +222,26 @@ fn families(ctx: &Ctx) -> Vec<Family> {
         fams.push(Family { name, num_terms, files, description });
     };
     if ctx.quick() {
-        // 6 terminated + 2 unterminated tokens, <= 2 lines: 57 files, 57^3 merges
+        // 7 terminated + 2 unterminated tokens, <= 2 lines: 73 files, 73^3 merges. The six-long
+        // `------` / `++++++` lines are one short of the minimum marker length: the diff styles
+        // prefix them with `-`/`+`/space, which makes them seven long.
         add(
             "3t-k2",
             3,
-            &[b"a\n", b"b\n", b"a\r\n", b"<<<<<<< x\n", b">>>>>>>\n", b"+++++++++++\n"],
+            &[
+                b"a\n",
+                b"b\n",
+                b"<<<<<<< x\n",
+                b">>>>>>>\n",
+                b"+++++++++++\n",
+                b"------\n",
+                b"++++++\n",
+            ],
             &[b"a", b"b\r"],
             2,
         );
+        // CRLF files (also files whose lines are all CRLF) and mixed LF/CRLF
+        add("3t-k2-crlf", 3, &[b"a\r\n", b"b\r\n", b"a\n"], &[b"a", b"b\r"], 2);
         // several conflict hunks separated by resolved text need >= 3 lines
         add("3t-k3", 3, &[b"a\n", b"b\n", b"c\n"], &[b"c"], 3);
         add(
@@ -254,11 +266,29 @@ fn families(ctx: &Ctx) -> Vec<Family> {
                 b"+++++++++++\n",
                 b"-------\n",
                 b"%%%%%%%\r\n",
-                b"=======\n",
-                b"|||||||\n",
+                b"------\n",
+                b"++++++\n",
                 b"-a\n",
             ],
             &[b"a", b"b\r", b"<<<<<<<"],
+            2,
+        );
+        // every marker character one short of the minimum marker length (a diff prefix makes
+        // it seven long), together with the git-only marker look-alikes
+        add(
+            "3t-k2-six",
+            3,
+            &[
+                b"a\n",
+                b"b\n",
+                b"------\n",
+                b"++++++\n",
+                b"%%%%%%\n",
+                b"\\\\\\\\\\\\\n",
+                b"=======\n",
+                b"|||||||\n",
+            ],
+            &[b"a", b"------"],
             2,
         );
         add(
@@ -284,6 +314,8 @@ fn families(ctx: &Ctx) -> Vec<Family> {
                 b"\\\\\\\\\\\\\\ x\n",
                 b"-a\n",
                 b"+a\n",
+                b"------\n",
+                b"++++++\n",
             ],
             &[b"a", b"b\r", b"<<<<<<<"],
             1,
@@ -314,6 +346,9 @@ struct Features {
     diff_markers: bool,
     snapshot_before_diff: bool,
     cr_in_input: bool,
+    /// longest marker look-alike of the sides is exactly 6 (one short of the minimum marker
+    /// length) and the diff format, which prefixes content lines, was used
+    six_long_lookalike_in_diff: bool,
 }
 
 enum Outcome {
@@ -479,6 +514,7 @@ fn check_roundtrip(p: &Prepared, expected: &[Merge<BString>], cfg: &Config) -> O
             _ => false,
         },
         cr_in_input: has_cr,
+        six_long_lookalike_in_diff: chosen == 10 && scan.first_diff.is_some(),
     })
 }
 
@@ -511,6 +547,7 @@ struct Tally {
     keep_conflicts: u64,
     labeled: u64,
     explicit_len: u64,
+    six_long_lookalike_in_diff: u64,
 }
 
 impl Tally {
@@ -529,6 +566,7 @@ impl Tally {
         self.keep_conflicts += (cfg.same_change == SameChange::Keep) as u64;
         self.labeled += cfg.labeled as u64;
         self.explicit_len += cfg.explicit_len_delta.is_some() as u64;
+        self.six_long_lookalike_in_diff += f.six_long_lookalike_in_diff as u64;
     }
     fn merge(&mut self, o: &Tally) {
         self.evals += o.evals;
@@ -549,6 +587,7 @@ impl Tally {
         self.keep_conflicts += o.keep_conflicts;
         self.labeled += o.labeled;
         self.explicit_len += o.explicit_len;
+        self.six_long_lookalike_in_diff += o.six_long_lookalike_in_diff;
     }
     fn features_json(&self) -> Value {
         json!({
@@ -566,6 +605,7 @@ impl Tally {
             "same_change_keep_conflicts": self.keep_conflicts,
             "labeled": self.labeled,
             "explicit_longer_marker_len": self.explicit_len,
+            "longest_lookalike_is_6_chars_and_diff_format_used": self.six_long_lookalike_in_diff,
         })
     }
 }
